@@ -465,6 +465,34 @@ func (cs *c06ShrexCase) evaluate() string {
 	return ""
 }
 
+// rejectedHonestReplies counts complete honest replies that were followed by a new request for the same
+// key within c06Fast of the honest handler's start (= consumed and rejected), for the worst key.
+func (cs *c06ShrexCase) rejectedHonestReplies() (int, int) {
+	cs.mu.Lock()
+	defer cs.mu.Unlock()
+	best, bestKey := 0, -1
+	for _, k := range cs.keys {
+		n := 0
+		for i := range cs.events {
+			e := &cs.events[i]
+			if e.peer >= 0 || !e.complete || e.key != k {
+				continue
+			}
+			for j := range cs.events {
+				f := &cs.events[j]
+				if f.key == k && f.start.After(e.end) && f.start.Sub(e.start) < c06Fast {
+					n++
+					break
+				}
+			}
+		}
+		if n > best {
+			best, bestKey = n, cs.keyIndex(k)
+		}
+	}
+	return best, bestKey
+}
+
 // c06Keys computes the request keys the getter will put on the wire for a request.
 func c06Keys(q *c06Req, height uint64) []string {
 	n := 2 * q.s.sq.W
@@ -776,6 +804,24 @@ func (c *c06) shrexCases() []*c06ShrexCase {
 			}
 		}
 	}
+	// full cross of (single bad behaviour, request type) followed by the honest peer, without deadline:
+	// the rotation above covers every (first behaviour, request type) pair only across honest/non-honest and
+	// context modes, and "one bad reply must not make the honest reply fail" is per request type (each has
+	// its own response buffer handling)
+	for b := c06Beh(0); b < c06Behs; b++ {
+		for k := c06Kind(0); k < c06Kinds; k++ {
+			cs := &c06ShrexCase{idx: idx, height: uint64(1000 + idx), script: []c06Beh{b}, honest: true, mode: "nodl",
+				done: make(chan struct{}), notify: make(chan struct{}, 1)}
+			cs.rng = c.rng.SplitN("shrex-case", idx)
+			cs.req = c06GenReq(cs.rng.Split("req"), k, vkit.Pick(cs.rng.Split("sq"), c.sqs), idx)
+			if b == c06NotFound && len(cs.req.coords) > 1 {
+				cs.req.coords = cs.req.coords[:1]
+			}
+			cs.keys = c06Keys(cs.req, cs.height)
+			cases = append(cases, cs)
+			idx++
+		}
+	}
 	return cases
 }
 
@@ -1004,6 +1050,15 @@ func (c *c06) runShrexCase(net *c06Net, cs *c06ShrexCase) {
 		switch {
 		case res.err == nil && judged:
 			run.Count("shrex/liveness/honest-last-success", 1)
+			// the call recovered, but was a complete correct reply of the honest peer thrown away on the way?
+			// (a new request for the same key right after a complete honest reply can only follow a rejection:
+			// every judged mode gives a request at least 5s)
+			if n, key := cs.rejectedHonestReplies(); n > 0 {
+				d := detail()
+				d["honest_replies_rejected"] = n
+				d["request_key_index"] = key
+				c.violation("shrex", q, "a correct reply of the honest peer is rejected after a bad reply of another peer (the call only succeeds on a later attempt)", d)
+			}
 		case res.err == nil:
 			run.Count("shrex/liveness/short-deadline-success", 1)
 		case ended == "rejected":
